@@ -273,6 +273,27 @@ PROPS["C10"] = {
     "explanation": "Client.tla models one RPC step by step (write, wait bounded by timeout and context, one retry on a fresh stream, decode, per-type field checks, cap on what enters the lookup) against a remote that may send any reply of the message space, any transport fault or nothing, and is model-checked for no-panic, error-or-result, foreign-record rejection, the 2K cap and eventual return (liveness) with four negative controls; a real client with the real message sender performs every public operation against scripted peers whose replies are generated over the response schema (every field present/absent/mismatched/oversized, unknown fields and enum values, huge and undecodable peer records, garbage, truncated/oversized/empty frames, reset, EOF, silence, refused streams), and TLC evaluates the clauses of ClientTrace.tla on every outcome, contacted peer, lookup event and peerstore content.",
 }
 
+PROPS["C13"] = {
+    "exhaustive": [
+        {"spec": "Modes.tla", "cfg": "Modes_quick.cfg"},
+        {"spec": "Modes.tla", "cfg": "Modes_thorough.cfg", "tier": "thorough", "timeout": 3000},
+        {"spec": "Modes.tla", "cfg": "Modes_neg_noreset.cfg", "expect": "violation"},
+        {"spec": "Modes.tla", "cfg": "Modes_neg_nomsgcheck.cfg", "expect": "violation"},
+        {"spec": "Modes.tla", "cfg": "Modes_neg_noreset_answer.cfg", "expect": "violation"},
+        {"spec": "Modes.tla", "cfg": "Modes_neg_nomsgcheck_answer.cfg", "expect": "violation"},
+        {"spec": "Modes.tla", "cfg": "Modes_neg_unknown.cfg", "expect": "violation"},
+        {"spec": "Modes.tla", "cfg": "Modes_neg_fixed.cfg", "expect": "violation"},
+    ],
+    "drivers": [{"test": "TestModes", "trace_spec": "ModesTrace.tla", "trace_cfg": "ModesTrace.cfg", "inv_cfg": {"C13": "ModesTrace_C13.cfg"}}],
+    "assumptions": [
+        "the host delivers an inbound stream in three steps (handler lookup; protocol set on the stream; handler invoked), as go-libp2p's basic host does, and refuses a stream when no handler is registered",
+        "the point where a mode switch becomes visible is the library's call to SetStreamHandler / RemoveStreamHandler (made under its mode lock right after the mode variable changes); it is observed there by the hand-written host without any hook in the library",
+        "'client mode' for the no-answer clause means settled in client mode: no reachability event in flight and nothing parked; requests racing with a switch may go either way",
+        "quiescence while a parked switch holds the mode lock is detected from goroutine states (synctest.Wait cannot be used while goroutines wait for a mutex)",
+    ],
+    "explanation": "Modes.tla models mode switching step by step (event queue, set-mode / handler (de)registration / snapshot / per-stream reset under the mode lock, the host's three-step stream delivery, the handler's check-read-handle-write loop) and is model-checked for: no request that reaches a node settled in client mode is answered, no inbound stream is still served once settled in client mode, handlers follow the mode, the mode follows the last reachability event and fixed modes never change, with six negative controls; a real DHT node receives reachability events over the host's event bus and inbound streams/requests from a scripted host while its steps towards the host and the datastore are parked and released in chooser-picked order (systematic scenarios explored by DFS over the choice tree, random scenarios under seeded schedules); TLC validates every trace against ModesTrace.tla.",
+}
+
 
 def overlay_file(scratch, name):
     """Writes the -overlay json for an internal-package driver (add-only mappings)."""
@@ -872,7 +893,85 @@ def mut_c10_extra(run):
     return r
 
 
+def mut_c13_late_answer(run):
+    # a request that arrived at a node settled in client mode gets a response
+    if run[0].get("cfg") is None:
+        return None
+    mode_client = run[0]["cfg"] in ("auto", "client")
+    settled = True
+    nreq = {}
+    for i, ev in enumerate(run):
+        if ev["e"] == "Emit":
+            settled = False
+        elif ev["e"] == "Settle":
+            settled = True
+            mode_client = not ev["handlers"]
+        elif ev["e"] == "Req":
+            nreq[ev["s"]] = ev["n"]
+            if settled and mode_client:
+                r = copy.deepcopy(run)
+                r.insert(i + 1, {"e": "Wrote", "s": ev["s"], "n": ev["n"], "t": ev["t"]})
+                return r
+    return None
+
+
+def mut_c13_lost_switch(run):
+    if run[0].get("cfg") is None:
+        return None
+    for i, ev in enumerate(run):
+        if ev["e"] == "Switch":
+            r = copy.deepcopy(run)
+            del r[i]
+            return r
+    return None
+
+
+def mut_c13_stream_left_open(run):
+    if run[0].get("cfg") is None:
+        return None
+    for i, ev in enumerate(run):
+        if ev["e"] == "Settle" and not ev["handlers"]:
+            for j, st in enumerate(ev["streams"]):
+                if st["invoked"] and st["finished"]:
+                    r = copy.deepcopy(run)
+                    r[i]["streams"][j]["finished"] = False
+                    return r
+    return None
+
+
+def mut_c13_handlers(run):
+    if run[0].get("cfg") is None:
+        return None
+    for i, ev in enumerate(run):
+        if ev["e"] == "Settle":
+            r = copy.deepcopy(run)
+            r[i]["handlers"] = not ev["handlers"]
+            return r
+    return None
+
+
+def mut_c13_unanswered(run):
+    if run[0].get("cfg") is None:
+        return None
+    settled = "server" if run[0]["handlers"] else "client"
+    clean = set()
+    for i, ev in enumerate(run):
+        if ev["e"] == "Emit":
+            settled, clean = "none", set()
+        elif ev["e"] == "Lookup" and settled == "server" and ev["accepted"]:
+            clean.add(ev["s"])
+        elif ev["e"] == "Settle":
+            for j, st in enumerate(ev["streams"]):
+                if st["s"] in clean and st["invoked"] and not st["finished"] and st["nreq"] > 0 and st["nresp"] == st["nreq"]:
+                    r = copy.deepcopy(run)
+                    r[i]["streams"][j]["nresp"] = st["nreq"] - 1
+                    return r
+            settled = "server" if ev["handlers"] else "client"
+    return None
+
+
 MUTATIONS = {
+    "C13": [mut_c13_late_answer, mut_c13_lost_switch, mut_c13_stream_left_open, mut_c13_handlers, mut_c13_unanswered],
     "C10": [mut_c10_crash, mut_c10_hang, mut_c10_foreign_value, mut_c10_cap, mut_c10_beyond, mut_c10_extra],
     "C09": [mut_c09_requester, mut_c09_client_answers, mut_c09_unsorted, mut_c09_omit_nearest, mut_c09_foreign_provider, mut_c09_put_mismatch, mut_c09_dead],
     "C01": [mut_c01_unsorted, mut_c01_drop_nearest, mut_c01_resp_event],
